@@ -85,6 +85,15 @@ def scenarios(tier):
                 ["top", "d/a", "e/b", "c"], ["top"])
     L.append((SC.scn("noisy-two-names-of-one-shared-target-j2", ssw, ["redo --no-color -j2 top"], visible=VIS, log_mode=True,
                      post_cmds=post), 0 if q else 1))
+    L.append((SC.scn("noisy-malformed-done-record-j1", noisy_world(32), ["redo --no-color top"], visible=VIS, log_mode=True,
+                     post_cmds=post), 0 if q else 1))
+    L.append((SC.scn("noisy-partial-line-with-record-prefix-then-nested-build-j1", noisy_world(64), ["redo --no-color top"], visible=VIS,
+                     log_mode=True, post_cmds=post, extra_line=(7, "partial line with @@REDO: in it:", ("top", "a"))), 0 if q else 1))
+    # a forced rebuild of top whose dependencies are all up to date: `redo-log -r -u` also shows those (from their logs of the
+    # earlier build), and what top writes after asking for them is still top's
+    L.append((SC.scn("noisy-unchanged-dependencies-shown-with-u-j1", w, ["redo --no-color top"], visible=VIS, log_mode=True,
+                     setup=[["ifchange", ["top"]]], post_cmds=post + [["redo-log", "-r", "-u", "--no-color", "top"]],
+                     times={"a": 0, "b": 0, "c": 0}, post_times=[None, None, {}]), 0))
     # every script writes a line that parses as a record naming a file redo knows nothing about: in-band signalling, so the
     # line itself is shown as a header -- but the viewer must survive it and go on showing everything else
     L.append((SC.scn("noisy-record-like-line-j1", noisy_world(2), ["redo --no-color top"], visible=VIS, log_mode=True,
@@ -101,15 +110,16 @@ EXPECT = {1: "whole line", 2: "first half-second half", 5: "p1-p2-p3-p4", 3: "x"
 ORDER = [1, 2, 5, 3, 4]
 
 
-def parse_pretty(text):
-    """[(current header target, line)] for every non-header line"""
+def parse_pretty(text, known=None):
+    """[(current header target, line)] for every non-header line.  A header-looking line that names none of the world's
+    targets is what the pretty-printer makes of a script line that looks like a record (in-band signalling): text."""
     cur = None
     out = []
     for line in text.split("\n"):
         if not line.strip():
             continue
         m = HDR.match(line)
-        if m:
+        if m and (known is None or m.group(1).strip().split("/")[-1] in known):
             cur = m.group(1).strip()
             continue
         out.append((cur, line))
@@ -200,7 +210,8 @@ def oracle(scn, res):
         return out
     targets = scn["world"].targets
     live = res["stderr"]["T0"]
-    judge_stream("live", parse_pretty(live), targets, scn, out)
+    known = {t.split("/")[-1] for t in targets}
+    judge_stream("live", parse_pretty(live, known), targets, scn, out)
     for i, p in enumerate(res.get("post", [])):
         raw = "--no-pretty" in p["argv"]
         pt = (scn.get("post_times") or [])
@@ -210,7 +221,7 @@ def oracle(scn, res):
             continue
         text = p["out"] + p["err"]
         judge_stream(("replay-raw" if raw else "replay-pretty") + ("" if times is None else ":" + p["argv"][-1]),
-                     parse_raw(text) if raw else parse_pretty(text), targets, scn, out, times=times)
+                     parse_raw(text) if raw else parse_pretty(text, known), targets, scn, out, times=times)
     return out
 
 
